@@ -520,6 +520,8 @@ fn c03_gen_b(seed: u64, run: u64, thorough: bool) -> Plan {
     plan.params.insert("short_ch".into(), 63.0);
     plan.end_us = horizon;
     plan.sort();
+    // (no failing socket calls here: "the next n send calls fail" would hit different datagrams
+    // in the two executions that this family compares)
     plan
 }
 fn c03_adv_b(plan: &Plan) -> Option<Box<dyn Adversary>> {
@@ -1424,6 +1426,9 @@ fn c15_gen(seed: u64, run: u64, thorough: bool) -> Plan {
         phases: r.range(1, 3),
     };
     let mut plan = world_a_general("C15", "a_twin_acks", seed, run, &sc, false);
+    // (no receive-buffer limit here: the extra frames of one execution would push genuine ones
+    // out of the buffer, which is the network's doing and not the sender's)
+    plan.timeline.retain(|t| !matches!(t.op, Op::SockCap { .. }));
     // a few packets of 33..70 fragments (their acknowledgement flags span more than one word's
     // half) where the peer's allocation admits them
     let limit = match &plan.endpoints[0].kind { EndpointKind::Hc { spec, .. } => spec.tx_alloc_limit, _ => 0 };
@@ -1475,7 +1480,7 @@ pub fn c15() -> CheckDef {
 // ------------------------------------------------------------------------------------------ C07
 
 fn c07_gen_faulty(seed: u64, run: u64, thorough: bool) -> Plan {
-    world_b_handshake("C07", "b_handshake_faults", seed, run, thorough, false)
+    with_socket_faults(world_b_handshake("C07", "b_handshake_faults", seed, run, thorough, false), seed, run)
 }
 fn c07_gen_clean(seed: u64, run: u64, thorough: bool) -> Plan {
     world_b_handshake("C07", "b_handshake_clean", seed, run, thorough, true)
@@ -1503,7 +1508,7 @@ pub fn c07() -> CheckDef {
             Family { name: "b_handshake_faults", world: "B", weight: 3, gen: c07_gen_faulty, oracles: c07_oracles, adversary: Some(c07_adv), keep_workload: true, custom: None,
                 what: "1-6 clients arriving within 3 s, loss/dup/reorder aimed at SYN, SYN-ACK, ACK and error frames, forged handshake frames from spoofed client and server addresses with nonces that differ from the genuine ones, replays of genuine handshake frames up to 20 s later, incompatible configurations, wrong-version SYNs, client crash and restart on the same address, a few reliable packets per connection" },
             Family { name: "b_handshake_clean", world: "B", weight: 1, gen: c07_gen_clean, oracles: c07_oracles, adversary: None, keep_workload: false, custom: None,
-                what: "same population on a link that loses only a random subset of the first three datagrams of each handshake direction: incompatible configurations must be refused with the matching error, compatible ones must connect on BOTH sides (retries of SYN, SYN-ACK and ACK complete the handshake) and agree on sequence numbers and limits" },
+                what: "same population on a link that loses only a random subset of the first three datagrams of each handshake direction, or the first 4-10 of the server's 11 SYN-ACK transmissions (during which the server application may drop() the pending handshake, so that the client's next SYN starts it again): incompatible configurations must be refused with the matching error, compatible ones must connect on BOTH sides (retries of SYN, SYN-ACK and ACK complete the handshake), stay connected, and agree on sequence numbers and limits" },
         ],
         panic_is_violation: no_panics,
         hang_is_violation: false,
@@ -1523,7 +1528,7 @@ pub fn c07() -> CheckDef {
 // ------------------------------------------------------------------------------------------ C08
 
 fn c08_gen(seed: u64, run: u64, thorough: bool) -> Plan {
-    world_b_lifecycle("C08", "b_lifecycle", seed, run, thorough)
+    with_socket_faults(world_b_lifecycle("C08", "b_lifecycle", seed, run, thorough), seed, run)
 }
 fn c08_oracles(_plan: &Plan) -> Vec<Box<dyn Oracle>> {
     with_states(vec![Box::new(EventAutomaton::new("C08"))])
@@ -1548,7 +1553,7 @@ pub fn c08() -> CheckDef {
 // ------------------------------------------------------------------------------------------ C17
 
 fn c17_gen_faulty(seed: u64, run: u64, thorough: bool) -> Plan {
-    world_b_limits("C17", "b_limits_faults", seed, run, thorough, false)
+    with_socket_faults(world_b_limits("C17", "b_limits_faults", seed, run, thorough, false), seed, run)
 }
 fn c17_gen_clean(seed: u64, run: u64, thorough: bool) -> Plan {
     world_b_limits("C17", "b_limits_clean", seed, run, thorough, true)
@@ -1921,7 +1926,7 @@ fn c19_gen(seed: u64, run: u64, thorough: bool) -> Plan {
 }
 /// World B: servers dropped with live clients, clients destroyed mid-transfer, Server::drop().
 fn c19_gen_b(seed: u64, run: u64, thorough: bool) -> Plan {
-    let mut plan = world_b_lifecycle("C19", "b_heap", seed, run, thorough);
+    let mut plan = with_socket_faults(world_b_lifecycle("C19", "b_heap", seed, run, thorough), seed, run);
     let mut r = Rng::keyed(&[seed, run, 0xb19]);
     // larger, multi-fragment packets that are not multiples of the fragment size
     for t in plan.timeline.iter_mut() {
